@@ -92,6 +92,9 @@ def build_segments(shape: Shape, hist: List[Dict[str, Any]], root: str, store_ki
               "module": mods[rootf], "root_path": rpath}
         if rec.get("stages", 5) < 5:
             st["kwargs"] = {"dds_stages": STAGE_NAMES[: rec["stages"]]}
+        rspec = [r for r in shape.roots if r["f"] == rootf][0]
+        if rspec.get("arg"):
+            st["arg_versions"] = [prog["rarg"][rec.get("ri", 1) - 1]]
         if eval_kwargs and rec["style"] == "eval":
             st["kwargs"] = eval_kwargs
         cur["steps"].append(st)
